@@ -7,6 +7,7 @@ inheritance) x raise site (body, evaluated reference, scoped reference) x nestin
 import builtins
 import errno
 import itertools
+import sys
 
 from vf import core
 from vf import harness
@@ -20,7 +21,7 @@ RULE = ('every builtin exception class (incl. exception groups, OSError family v
         'attribute readable on the original reads the same, str = original + suffix naming configurable and scope; '
         'non-Exception classes arrive as the identical object. non-trivial = class has data beyond the message.')
 ASSUMPTIONS = ['public attributes = dir() minus dunder names, plus args', 'CPython 3.12 builtin exception set']
-WITNESSES = ['same_class_caught', 'traceback_kept', 'user_attribute_kept', 'message_extended', 'baseexception_untouched',
+WITNESSES = ['consumed_by_interpreter', 'same_class_caught', 'traceback_kept', 'user_attribute_kept', 'message_extended', 'baseexception_untouched',
              'nested_depth3', 'scope_named', 'reference_site', 'sequence_of_raises', 'midway_annotation_kept']
 
 CURRENT = [None]
@@ -166,6 +167,16 @@ class UClassDefault(Exception):
     self.retries = [1, 2]
 
 
+class UNewMismatch(Exception):
+  """__new__ requires arguments that `args` does not mirror (the message is composed in __init__)."""
+  def __new__(cls, code, detail):
+    return super().__new__(cls, code, detail)
+
+  def __init__(self, code, detail):
+    super().__init__('code %s' % code)
+    self.code, self.detail = code, detail
+
+
 class UKwOnly(Exception):
   def __init__(self, *, code):
     super().__init__('code=%s' % code)
@@ -177,7 +188,7 @@ USER = {
     'USlots': lambda: USlots('m', ['d']), 'UStr': lambda: UStr('s', 1), 'UProp': lambda: UProp(21),
     'UBase': lambda: UBase('base', 1), 'USub': lambda: USub('sub', 2), 'USubSub': lambda: USubSub('subsub', 3),
     'UMulti': lambda: UMulti('key'), 'UOs': lambda: UOs(errno.EACCES, 'denied', '/x'), 'UKwOnly': lambda: UKwOnly(code=5),
-    'UClassDefault': lambda: UClassDefault('cd', 5),
+    'UClassDefault': lambda: UClassDefault('cd', 5), 'UNewMismatch': lambda: UNewMismatch(3, 'd'),
 }
 
 
@@ -422,7 +433,113 @@ def run_annotated(cname, depth, res):
   res.outcome('annotated')
 
 
+# ------------------------------------------------------------------ exceptions consumed by the interpreter itself
+# (the interpreter reads some type-specific fields straight from the C struct, not through attribute lookup; run in a
+#  subprocess because a wrong struct can crash the process)
+INTERP = {
+    'stopiteration_yield_from': '''
+@gin.configurable
+def nxt():
+  raise StopIteration(42)
+class It:
+  def __iter__(self): return self
+  def __next__(self): return nxt()
+def g():
+  return (yield from It())
+try:
+  next(g())
+  out = 'no exception'
+except StopIteration as e:
+  out = e.value
+print(json.dumps(out))
+''',
+    'stopiteration_nested_yield_from': '''
+@gin.configurable
+def nxt():
+  raise StopIteration('v')
+@gin.configurable
+def outer():
+  return nxt()
+class It:
+  def __iter__(self): return self
+  def __next__(self): return outer()
+def g():
+  return (yield from It())
+try:
+  next(g())
+  out = 'no exception'
+except StopIteration as e:
+  out = e.value
+print(json.dumps(out))
+''',
+    'exception_group_except_star': '''
+@gin.configurable
+def grp():
+  raise ExceptionGroup('grp', [ValueError(1), KeyError('k')])
+seen = []
+try:
+  grp()
+except* ValueError as eg:
+  seen.append(['ValueError', [type(x).__name__ for x in eg.exceptions]])
+except* KeyError as eg:
+  seen.append(['KeyError', [type(x).__name__ for x in eg.exceptions]])
+print(json.dumps(seen))
+''',
+    'syntaxerror_format': '''
+import traceback
+@gin.configurable
+def syn():
+  raise SyntaxError('bad thing', ('f.py', 3, 5, 'x = = 1'))
+try:
+  syn()
+except SyntaxError as e:
+  lines = traceback.format_exception_only(type(e), e)
+  out = [e.filename, e.lineno, e.offset, e.text, any('f.py' in l and '3' in l for l in lines), any('x = = 1' in l for l in lines)]
+print(json.dumps(out))
+''',
+    'oserror_errno_match': '''
+import errno
+@gin.configurable
+def ose():
+  raise FileNotFoundError(errno.ENOENT, 'missing', '/p')
+try:
+  ose()
+except FileNotFoundError as e:
+  out = [e.errno, e.strerror, e.filename, str(e).startswith('[Errno 2] missing')]
+print(json.dumps(out))
+''',
+}
+INTERP_WANT = {
+    'stopiteration_yield_from': 42, 'stopiteration_nested_yield_from': 'v',
+    'exception_group_except_star': [['ValueError', ['ValueError']], ['KeyError', ['KeyError']]],
+    'syntaxerror_format': ['f.py', 3, 5, 'x = = 1', True, True],
+    'oserror_errno_match': [2, 'missing', '/p', True],
+}
+
+
+def run_interp(name, res):
+  import json as _json
+  import subprocess
+  case = ['interp', name]
+  res.case(tuple(case), True)
+  prog = 'import sys, json\nsys.path.insert(0, %r)\nimport gin\n' % harness.REPO + INTERP[name]
+  p = subprocess.run([sys.executable, '-B', '-c', prog], capture_output=True, text=True, timeout=120)
+  res.outcome('interp:rc%d' % p.returncode)
+  if p.returncode != 0:
+    res.violation('interpreter_level:' + name, '%r: the exception consumed by the interpreter: process exited %d '
+                  '(negative = killed by signal, -11 = segmentation fault); stderr tail %r' %
+                  (case, p.returncode, p.stderr[-300:]), case)
+    return
+  got = _json.loads(p.stdout.strip().splitlines()[-1])
+  if got != INTERP_WANT[name]:
+    res.violation('interpreter_level:' + name, '%r: got %r, expected %r' % (case, got, INTERP_WANT[name]), case)
+  else:
+    res.w('consumed_by_interpreter')
+
+
 def gen(tier):
+  for name in INTERP:
+    yield ['interp', name]
   for c, s, d in itertools.product(sorted(all_factories()), SITES, DEPTHS):
     yield [c, s, d]
   for c in ['ValueError', 'KeyError', 'UExtra', 'UBase', 'USub', 'UMulti', 'UStr', 'LookupError', 'RuntimeError']:
@@ -451,7 +568,9 @@ def run_shard(i, tier):
     if n % NSH != i:
       continue
     try:
-      if c[0] == 'seq':
+      if c[0] == 'interp':
+        run_interp(c[1], res)
+      elif c[0] == 'seq':
         run_seq(c[1], c[2], res)
       elif c[0] == 'annotated':
         run_annotated(c[1], c[2], res)
@@ -469,7 +588,9 @@ def run_shard(i, tier):
 
 def replay(c):
   res = core.Result()
-  if c[0] == 'seq':
+  if c[0] == 'interp':
+    run_interp(c[1], res)
+  elif c[0] == 'seq':
     run_seq(c[1], c[2], res)
   elif c[0] == 'annotated':
     run_annotated(c[1], c[2], res)
